@@ -453,16 +453,26 @@ def standard_run(pid, tier, seed, spec):
                 r.violation(sig, what, c, {'impl_observed': o})
             return True
         return False
+    harness_errors = []
     for c in cases:
-        o = spec['impl_run'](c)
+        try:
+            o = spec['impl_run'](c)
+            consider(c, o)
+            e = spec['expected'](c, o)
+            term = None if e is None else (spec['case_term'](c, o), gallina_zlist(e))
+        except Exception as exc:     # the harness can no longer drive the implementation: a broken tie, not a crash
+            import traceback
+            harness_errors.append('%s: %s' % (type(exc).__name__, str(exc)[:200]))
+            if len(harness_errors) == 1:
+                r.broken_obligation('correspondence', '%s: the harness could not drive the implementation (%s)'
+                                    % (pid, harness_errors[0]), traceback.format_exc())
+            o, term = {'harness_error': harness_errors[-1]}, None
         obs.append(o)
-        consider(c, o)
-        e = spec['expected'](c, o)
-        if e is None:
+        if term is None:
             skipped += 1
             pairs.append(None)
         else:
-            pairs.append((spec['case_term'](c, o), gallina_zlist(e)))
+            pairs.append(term)
     live = [(i, p) for i, p in enumerate(pairs) if p is not None]
     if not okm:
         mism, err = [], 'model does not build: ' + logm[-1200:]
@@ -494,11 +504,19 @@ def standard_run(pid, tier, seed, spec):
         t_end = time.time() + (120 if tier == 'quick' else 1200)
         for i in range(extra):
             c = spec['gen_case'](rng2, i)
-            o = spec['impl_run'](c)
-            consider(c, o)
+            try:
+                o = spec['impl_run'](c)
+                consider(c, o)
+            except Exception:
+                continue
             if len(r.violations) > 20 or time.time() > t_end:
                 break
-    nt = [c for c, o in zip(cases, obs) if spec['nontrivial'](c, o)]
+    def _nt(c, o):
+        try:
+            return 'harness_error' not in o and spec['nontrivial'](c, o)
+        except Exception:
+            return False
+    nt = [c for c, o in zip(cases, obs) if _nt(c, o)]
     cov = {
         'evaluations': len(cases), 'distinct_nontrivial': distinct_count(nt), 'rule': spec['rule'],
         'samples': cases[ncorpus:ncorpus + 2] if len(cases) > ncorpus + 1 else cases[:2],
@@ -506,7 +524,12 @@ def standard_run(pid, tier, seed, spec):
         'ambiguous_skipped': skipped, 'source_sha256': source_hashes(spec.get('anchors', [])),
     }
     if spec.get('extra'):
-        cov.update(spec['extra'](r, cases, obs))
+        try:
+            cov.update(spec['extra'](r, [c for c, o in zip(cases, obs) if 'harness_error' not in o],
+                                     [o for o in obs if 'harness_error' not in o]))
+        except Exception as exc:
+            cov['extra_error'] = '%s: %s' % (type(exc).__name__, exc)
+    cov['harness_errors'] = len(harness_errors)
     r.finish(proof, coverage=cov, trusted_base=spec['trusted'], assumptions=spec['assumptions'])
 
 
